@@ -74,6 +74,32 @@ def edits(blob, tier, stride=1):
     yield 'empty', b''
 
 
+def nested_edits(blob, depth=0):
+    """Edits that keep every length field consistent: where `blob` parses as a run of SSH strings, each string in
+    turn gets a byte appended, prepended or its last byte removed INSIDE it (its length field and those of the
+    strings around it adjusted), recursively for strings that themselves parse as runs of strings -- a verifier
+    that stops reading where it has enough must notice what follows."""
+    parts, pos = [], 0
+    while pos + 4 <= len(blob):
+        n = struct.unpack('>I', blob[pos:pos + 4])[0]
+        if pos + 4 + n > len(blob):
+            return
+        parts.append(blob[pos + 4:pos + 4 + n])
+        pos += 4 + n
+    if pos != len(blob) or not parts:
+        return
+    enc = lambda ps: b''.join(struct.pack('>I', len(p_)) + p_ for p_ in ps)
+    for i, part in enumerate(parts):
+        for name, new in (('append00', part + b'\0'), ('append-ff', part + b'\xff'), ('prepend00', b'\0' + part), ('drop-last', part[:-1])):
+            if new != part:
+                yield 'nested%d.%d:%s' % (depth, i, name), enc(parts[:i] + [new] + parts[i + 1:])
+        if depth < 3:
+            for name, inner in nested_edits(part, depth + 1):
+                yield name + '<in%d.%d' % (depth, i), enc(parts[:i] + [inner] + parts[i + 1:])
+        # a further whole string inside
+        yield 'nested%d.%d:extra-string' % (depth, i), enc(parts[:i] + [part + struct.pack('>I', 0)] + parts[i + 1:])
+
+
 # ------------------------------------------------------------------ signatures
 def sig_worker(job):
     alg, kw, tier = job
@@ -113,6 +139,19 @@ def sig_worker(job):
                 try:
                     if pub.verify(msg, s2):
                         bad('altered-signature-accepted', 'signature edit %s still verifies' % elab)
+                except Exception as exc:        # pylint: disable=broad-except
+                    bad('verify-raised', 'edit %s raised %r' % (elab, exc))
+            for elab, s2 in nested_edits(sig):
+                if s2 == sig:
+                    continue
+                n += 1
+                try:
+                    if pub.verify(msg, s2):
+                        # an mpint with a redundant leading zero byte is the same number written non-canonically
+                        if 'prepend00' in elab and 'ecdsa' in alg or 'prepend00' in elab and alg == 'ssh-dss':
+                            acc.count('non-canonical-mpint-accepted')
+                            continue
+                        bad('altered-signature-accepted', 'signature edit %s (lengths consistent) still verifies' % elab)
                 except Exception as exc:        # pylint: disable=broad-except
                     bad('verify-raised', 'edit %s raised %r' % (elab, exc))
             for elab, m2 in edits(msg, tier, 1 if len(msg) < 50 else 37):
